@@ -495,11 +495,11 @@ def stepBody (cx : NumCtx) (e : Env) (s : State) : Op → Res
   | .reduceDebt vk pb => (reduceDebtBody cx e s vk pb).1
   | .uniRemove pos => uniRemoveOp cx e s pos
 
-/-- which operations are decorated with `_atomic` in the code: the public vault operations.  `update` is a loop of
-    transactions (each `liquidate` is one), `_reduce_debt` is private, `remove_liquidity` belongs to the pool. -/
+/-- which operations are decorated with `_atomic` in the code: the public vault operations and `_reduce_debt`.
+    `update` is a loop of transactions (each `liquidate` is one), `remove_liquidity` belongs to the pool. -/
 def Op.isAtomic : Op → Bool
-  | .openMint .. | .deposit .. | .depositUni .. | .withdrawUni .. | .burnWithdraw .. | .liquidate .. => true
-  | .update | .reduceDebt .. | .uniRemove .. => false
+  | .openMint .. | .deposit .. | .depositUni .. | .withdrawUni .. | .burnWithdraw .. | .liquidate .. | .reduceDebt .. => true
+  | .update | .uniRemove .. => false
 
 /-- what a call of the operation does -/
 def step (cx : NumCtx) (e : Env) (s : State) (op : Op) : Res :=
